@@ -44,7 +44,9 @@ def build(binname):
         p = subprocess.run(cmd, cwd=cwd, env=ENV, stdout=subprocess.PIPE, stderr=subprocess.STDOUT, text=True)
         if p.returncode != 0:
             log("\n".join(l for l in p.stdout.split("\n") if l.startswith("error") or "-->" in l and "/verif/" in l)[-4000:])
-            raise SystemExit("HARNESS-ERROR build of %s failed" % binname)
+            # not a verdict on the property: exit 3 (inconclusive), never 1
+            print("HARNESS-ERROR build of %s failed (inconclusive: nothing was observed)" % binname)
+            sys.exit(3)
         log("[build %s %.1fs]" % (binname, time.time() - t))
     if binname == "server":
         return os.path.join(WORK, "target-repo", "release", "humphrey")
